@@ -31,6 +31,8 @@ type Call struct {
 	Commits int `json:"commits"`
 	// batch of the universal mint the snapshot finalizes (0: not a mint snapshot)
 	Mint uint64 `json:"mint,omitempty"`
+	// per member transaction: the amount it adds to the asset total when first finalized (deposit, mint), "" otherwise
+	Adds []string `json:"adds,omitempty"`
 	v0   uint64
 }
 
@@ -225,17 +227,26 @@ func (s *CrashStore) WriteSnapshot(snap *common.SnapshotWithTopologicalOrder, si
 		c.Txs = append(c.Txs, s.txId(th))
 		c.TxH = append(c.TxH, th.String())
 	}
-	if len(snap.Transactions) == 1 {
-		tx, _, err := s.Store.ReadTransaction(snap.Transactions[0])
-		if err == nil && tx != nil && isConsensusType(tx.TransactionType()) {
-			c.Cons = true
-			if tx.TransactionType() == common.TransactionTypeMint {
-				c.Mint = tx.Inputs[0].Mint.Batch
+	for _, th := range snap.Transactions {
+		add := ""
+		if tx, _, err := s.Store.ReadTransaction(th); err == nil && tx != nil {
+			switch tx.TransactionType() {
+			case common.TransactionTypeDeposit:
+				add = tx.DepositData().Amount.String()
+			case common.TransactionTypeMint:
+				add = tx.Inputs[0].Mint.Amount.String()
 			}
-			if len(tx.References) > 0 {
-				c.Ref = s.txId(tx.References[0])
+			if len(snap.Transactions) == 1 && isConsensusType(tx.TransactionType()) {
+				c.Cons = true
+				if tx.TransactionType() == common.TransactionTypeMint {
+					c.Mint = tx.Inputs[0].Mint.Batch
+				}
+				if len(tx.References) > 0 {
+					c.Ref = s.txId(tx.References[0])
+				}
 			}
 		}
+		c.Adds = append(c.Adds, add)
 	}
 	s.enter(c)
 	err := s.Store.WriteSnapshot(snap, signers)
